@@ -502,6 +502,19 @@ func generate(r *hx.Rng, worlds, n int) []cs {
 			hi = append(append([]byte{}, keys[len(keys)-1]...), 0xff)
 		}
 		g.add("RDR", rt, H(lo), H(hi), ks)
+		if i%3 == 0 {
+			// WriteBatch.DeleteRange over list sequence keys: [key(a), key(b)) as LTRIM uses it
+			var lks [][]byte
+			base := int64(1) << 61
+			for s := int64(0); s < 8; s++ {
+				lks = append(lks, rr.VerifLEncodeListKey(tb, k, base+s))
+			}
+			lks = append(lks, rr.VerifLEncodeListKey(tb, append(append([]byte{}, k...), 0), base+2))
+			sort.Slice(lks, func(a, b int) bool { return bytes.Compare(lks[a], lks[b]) < 0 })
+			a := base + int64(r.Pick(5))
+			b := a + int64(r.Pick(5))
+			g.add("DR", H(rr.VerifLEncodeListKey(tb, k, a)), H(rr.VerifLEncodeListKey(tb, k, b)), hx.HL(lks))
+		}
 	}
 	// size limits
 	mk := int(rr.VerifConsts()["max_key_size"])
